@@ -13,9 +13,9 @@ FewAssignments == {[c \in C4 |-> g] : g \in Grid} \cup
                    [c \in C4 |-> IF c \in {"ARG", "MUS"} THEN <<399, 400>> ELSE <<1, 2>>], [c \in C4 |-> <<399, 400>>]}
 \* thorough: every assignment over the four core countries x {1/2, 3/2} for the two map specials
 AllAssignments == {[c \in C4 |-> IF c \in Core THEN f[c] ELSE g[c]] : f \in [Core -> Grid], g \in [{"MUS", "SWT"} -> {<<1, 2>>, <<3, 2>>}]} \cup FewAssignments
-CountryTab == [r \in RunTypes |-> CASE r \in {"r_arg_base", "r_bad", "r_arg_kf", "r_arg_herd", "r_arg_own48"} -> "ARG" [] r = "r_nzl_nw" -> "NZL"
+CountryTab == [r \in RunTypes |-> CASE r \in {"r_arg_base", "r_bad", "r_arg_kf", "r_arg_herd", "r_arg_own48"} -> "ARG" [] r = "r_nzl_base" -> "NZL"
                                      [] r \in {"r_dji_res", "r_dji_capoff"} -> "DJI" [] r = "r_wor" -> "WOR" [] r = "r_alb_kf" -> "ALB"]
-OptTab == [r \in RunTypes |-> IF r \in {"r_alb_kf", "r_arg_kf"} THEN "known_to_fail_for_ALB" ELSE r]
+OptTab == [r \in RunTypes |-> IF r \in {"r_alb_kf", "r_arg_kf"} THEN "known_to_fail_for_ALB" ELSE IF r \in {"r_arg_base", "r_nzl_base"} THEN "net_baseline" ELSE r]
 PosTab == [c \in {"ALB", "ARG", "DJI", "NZL", "WOR"} |-> CASE c = "ALB" -> 1 [] c = "ARG" -> 5 [] c = "DJI" -> 40 [] c = "NZL" -> 88 [] c = "WOR" -> 999]
 ASSUME AggregateSane
 ASSUME Emit => \A x \in AggregateCases :
